@@ -247,7 +247,7 @@ func genLog(t *rapid.T) Case {
 	return c
 }
 
-var tamperOps = []string{"changebyte", "changebyte", "changebyte", "delete", "delete", "swap", "swap", "duplicate", "duplicate", "truncate", "cuttail", "wrongkey"}
+var tamperOps = []string{"changebyte", "changebyte", "changebyte", "delete", "delete", "swap", "swap", "duplicate", "duplicate", "truncate", "cuttail", "wrongkey", "cutinside", "changelast"}
 
 func genEdit(t *rapid.T, key []byte) Edit {
 	e := Edit{Op: rapid.SampledFrom(tamperOps).Draw(t, "op")}
@@ -823,6 +823,38 @@ func apply(c Case, buf []byte, meta logMeta) (out []byte, removal bool, key []by
 		return join(E), false, key, nil
 	case "truncate":
 		return join(L[:idx]), true, key, nil
+	case "cutinside":
+		// the file ends inside its last line (a copy interrupted, a tail removed by hand): 1-20 bytes of the
+		// last line and its line feed are gone; the integrity token of that line is still there
+		last := L[n-1]
+		k := 1 + e.Pos%20
+		if k >= len(last) {
+			k = len(last) - 1
+		}
+		if k < 1 {
+			return buf, false, key, nil
+		}
+		out = append([]byte(nil), buf...)
+		out = out[:len(out)-1-k] // the final line feed and k bytes
+		return out, false, key, nil
+	case "changelast":
+		// one byte of the last line changed and the final line feed removed
+		sp := lineSpans(buf)
+		s := sp[len(sp)-1]
+		if s[1] <= s[0] {
+			return buf, false, key, nil
+		}
+		out = append([]byte(nil), buf[:s[1]]...)
+		x := byte(e.Xor)
+		if x == 0 {
+			x = 1
+		}
+		at := s[0] + e.Pos%(s[1]-s[0])
+		out[at] ^= x
+		if out[at] == '\n' {
+			out[at] ^= 0x40
+		}
+		return out, false, key, nil
 	case "cuttail":
 		k := chainOf(cs, idx)
 		if idx == cs[k].first && cs[k].last > cs[k].first {
@@ -1102,9 +1134,25 @@ func Check(c Case, reportBaseline bool) (vs hx.Vs, res Result) {
 		return vs, res
 	}
 	E := splitLines(ebuf)
-	got, ran := verify(&vs, c.Format, key, E)
-	if !ran {
+	// the edited file goes the way acra-log-verifier takes: the real reader, then the verifier. A reader
+	// that fails is a failed verification; lines it drops are simply not verified
+	var rl []string
+	var rerr, herr error
+	if hx.Guard(&vs, "ReadLogEntries", func() { rl, _, rerr, herr = readBack(ebuf) }) {
 		return vs, res
+	}
+	if herr != nil {
+		vs.Add("harness:readback", "%v", herr)
+		return vs, res
+	}
+	var got verdict
+	if rerr != nil {
+		got = verdict{line: -1, err: "ReadLogEntries: " + rerr.Error()}
+	} else {
+		var ran bool
+		if got, ran = verify(&vs, c.Format, key, rl); !ran {
+			return vs, res
+		}
 	}
 	op := c.Edit.Op
 	firstProtected := func(from int) int {
